@@ -608,6 +608,26 @@ def ill_conditioned_family(t):
                     for od, oe in (('max', gen.var('x')), ('max', gen.var('y')), ('min', ['+', gen.var('x'), gen.var('y')])):
                         if (di + len(out)) % 3 == 0 or t != 'quick':
                             out.append({'fam': 'Mill', 'profile': 'ill-conditioned', 'model': gen.mk_model(od, oe, [dict(c) for c in cons], dict(doms))})
+    # cancellation chains: z <= y + x - K with x in [0, K] and y in [0, t], t tiny, leaves the tiny bound t after the
+    # large parts cancel (an inexact sum whose error is of the order of t), and w <= S * z scales what is left back to
+    # an ordinary magnitude; both orders of the addends (which operand of a sum is the larger one matters to
+    # error-free transformations), <= and >= mirrored
+    free = D('Real', '-inf', 'inf')
+    for K in (1, 1000, 0.7):
+        for tny in (1e-19, 1e-12, 0.3, 3e-17):
+            for S in (1e18, 1e10, 1):
+                for order in (0, 1):
+                    for mirror in (False, True):
+                        sg = -1 if mirror else 1
+                        xs, ys = gen.var('x'), gen.var('y')
+                        ssum = ['+', ys, xs] if order == 0 else ['+', xs, ys]
+                        e1 = ['-', ssum, gen.num(K)]
+                        if mirror:
+                            cons = [gen.row(gen.var('z'), '>=', ['-', gen.num(K), ssum]), gen.row(gen.var('w'), '>=', ['*', gen.num(S), gen.var('z')])]
+                        else:
+                            cons = [gen.row(gen.var('z'), '<=', e1), gen.row(gen.var('w'), '<=', ['*', gen.num(S), gen.var('z')])]
+                        doms = {'x': D('Real', 0, K), 'y': D('Real', 0, tny), 'z': free, 'w': free}
+                        out.append({'fam': 'Mill', 'profile': 'cancel-chain', 'model': gen.mk_model('max' if not mirror else 'min', gen.var('w'), cons, doms)})
     return out
 
 
